@@ -259,7 +259,7 @@ def parse_cursor_op(t, bpp):
     elif t[1] == "rich":
         s.update(pix=b(t[6]), mask=b(t[7]), fg=tuple(map(int, t[8:11])), bg=tuple(map(int, t[11:14])))
     elif t[1] == "alpha":
-        s.update(pix=b(t[6]), alpha=b(t[7]))
+        s.update(pix=b(t[6]), alpha=b(t[7]), fg=(0, 0, 0), bg=(0, 0, 0))
     return s
 
 
@@ -286,6 +286,39 @@ def default_cursor_spec():
         _DEFCUR["c"] = {"kind": "x", "w": c["w"], "h": c["h"], "xh": c["xh"], "yh": c["yh"],
                         "src": bytes(c["src"]), "mask": bytes(c["mask"]), "fg": c["fg"], "bg": c["bg"]}
     return dict(_DEFCUR["c"])
+
+
+def bit_at(bits, w, u, v):
+    return (bits[v * rb(w) + u // 8] >> (7 - (u & 7))) & 1
+
+
+def dilate3x3(src, w, h):
+    """what rfbMakeMaskForXCursor is for: every source pixel and its eight neighbours"""
+    return [[int(any(bit_at(src, w, uu, vv) for uu in range(max(0, u - 1), min(w, u + 2))
+                     for vv in range(max(0, v - 1), min(h, v + 2)))) for u in range(w)] for v in range(h)]
+
+
+def x_bitmap_of_rich(cur, bpp):
+    """rfbMakeXCursorFromRichCursor as its comments specify it: with all six colours zero (and a 1-, 2- or
+    4-byte true-colour pixel) interpolate to black and white by grey level >= 128 and report a white
+    foreground; otherwise a bit is set where the pixel differs from the background colour.
+    -> (bits per pixel row-major, colour bytes)"""
+    _, mx, sh = FMTS[SERVER_FMT[bpp]]
+    w, h = cur["w"], cur["h"]
+    fg, bg = cur.get("fg", (0, 0, 0)), cur.get("bg", (0, 0, 0))
+    interp = fg == (0, 0, 0) and bg == (0, 0, 0) and bpp in (1, 2, 4)
+    back = sum(((mx[k] * bg[k]) // 0xffff) << sh[k] for k in range(3)) & ((1 << (8 * bpp)) - 1)
+    bits = []
+    for k in range(w * h):
+        p = int.from_bytes(cur["pix"][k * bpp:(k + 1) * bpp], "little")
+        if interp:
+            g = sum(255 * ((p >> sh[c]) & mx[c]) // mx[c] for c in range(3)) // 3
+            bits.append(1 if g >= 128 else 0)
+        else:
+            bits.append(1 if p != back else 0)
+    if interp:
+        fg = (0xffff, 0xffff, 0xffff)
+    return bits, bytes([c >> 8 for c in fg + bg])
 
 
 def check_shape(shape, ckind, cur, bpp, cfmt=None):
@@ -324,6 +357,36 @@ def check_shape(shape, ckind, cur, bpp, cfmt=None):
         return "cursor payload has %d bytes, expected %d" % (len(payload), want_len)
     if "mask" in cur and payload[-mb:] != cur["mask"]:
         return "mask bytes differ from the cursor's mask"
+    maskb = payload[-mb:] if mb else b""
+    if cur["kind"] == "xm":
+        # the mask the library derives for an X cursor: the source dilated by one pixel
+        want = dilate3x3(cur["src"], w, h)
+        for v in range(h):
+            for u in range(w):
+                if bit_at(maskb, w, u, v) != want[v][u]:
+                    return "derived mask bit %d,%d is %d, the source dilated by one pixel has %d" % (
+                        u, v, bit_at(maskb, w, u, v), want[v][u])
+    if cur["kind"] == "alpha" and w * h > 0:
+        # the mask dithered from the alpha source: threshold 0x80 at the first pixel; a fully
+        # transparent source gives no bit at all, a fully opaque one every bit of the cursor
+        al = cur["alpha"]
+        if bit_at(maskb, w, 0, 0) != (1 if al[0] >= 0x80 else 0):
+            return "alpha mask: first pixel has alpha %d but mask bit %d" % (al[0], bit_at(maskb, w, 0, 0))
+        if all(a == 0 for a in al) and any(maskb):
+            return "alpha mask of a fully transparent source is not empty"
+        if all(a == 255 for a in al):
+            for v in range(h):
+                for u in range(w):
+                    if not bit_at(maskb, w, u, v):
+                        return "alpha mask of a fully opaque source lacks bit %d,%d" % (u, v)
+    if tag == "X" and cur["kind"] in ("rich", "alpha"):
+        bits, col = x_bitmap_of_rich(cur, bpp)
+        if payload[:6] != col:
+            return "XCursor colours %s for a rich cursor, expected %s" % (payload[:6].hex(), col.hex())
+        for k in range(w * h):
+            if bit_at(payload[6:6 + mb], w, k % w, k // w) != bits[k]:
+                return "XCursor bitmap of a rich cursor: bit %d,%d is %d, expected %d" % (
+                    k % w, k // w, 1 - bits[k], bits[k])
     if tag == "X" and cur["kind"] in ("x", "xs", "xm"):
         col = bytes([c >> 8 for c in cur["fg"] + cur["bg"]])
         if payload[:6] != col:
@@ -402,6 +465,11 @@ def oracle(script, impl):
                         if m.group(10) != "%d,%d" % pos:
                             return "client %d: PointerPos %s after another client moved the pointer to %d,%d" % ((cid, m.group(10)) + pos)
                         owed_pos[cid] = False
+                    elif m.group(10) != "-":
+                        # position updates are for movements by ANOTHER client (or a fresh SetEncodings)
+                        return "client %d: PointerPos %s although no other client has moved the pointer since its last update" % (cid, m.group(10))
+                elif m.group(10) != "-" or m.group(9) != "-":
+                    return "client %d without cursor-shape support got a cursor pseudo-rectangle" % cid
             continue
         ob = impl[i]
         i += 1
@@ -536,6 +604,31 @@ def matrix_scripts(rng):
                                   "cursor x %d %d 0 0 - - 65535 65535 65535 0 0 0" % (w, h), "ptr 0 4 3 0",
                                   "req 0 1 0 0 %d %d" % (W, H), "pump", "ptr 0 %d %d 0" % (W, H),
                                   "req 0 1 0 0 %d %d" % (W, H), "pump"]) + "\n")
+    # derived masks and conversions seen by cursor-shape clients: alpha sources that are fully opaque,
+    # fully transparent, and with the first pixel just below / at the dithering threshold; X cursors
+    # with a derived mask whose source crosses byte boundaries in both directions; a rich cursor with
+    # all-zero colours (black/white interpolation) at every depth; a PointerPos-only update that fails
+    for sb in (1, 2, 3, 4):
+        W, H = 12, 9
+        full = lambda i, inc=1: "req %d %d 0 0 %d %d" % (i, inc, W, H)
+        lines = ["screen %d %d %d" % (W, H, sb), "client 0 x", "client 1 rich", "client 2 raw", full(0, 0), full(1, 0), full(2, 0), "pump"]
+        w, h = 11, 4
+        pix = lambda: hx(bytes(rng.randrange(256) for _ in range(w * h * sb)))
+        for al in (bytes([255]) * (w * h), bytes(w * h), bytes([127]) + bytes(rng.randrange(256) for _ in range(w * h - 1)),
+                   bytes([128]) + bytes(rng.randrange(256) for _ in range(w * h - 1))):
+            lines += ["cursor alpha %d %d 1 1 %s %s %d" % (w, h, pix(), hx(al), rng.randint(0, 1)), full(0), full(1), full(2), "pump"]
+        # source with pixels on both sides of the byte boundaries 7|8 and 15|16
+        src = bytearray(rb(19) * 5)
+        for (u, v) in ((8, 0), (7, 2), (16, 3), (15, 4), (0, 4), (18, 1)):
+            src[v * rb(19) + u // 8] |= 0x80 >> (u & 7)
+        lines += ["cursor xm 19 5 2 2 %s" % hx(src), full(0), full(1), full(2), "pump"]
+        lines += ["cursor rich %d %d 0 0 %s %s 0 0 0 0 0 0" % (w, h, pix(), hx(rand_bits(rng, w, h, "dense", True))),
+                  full(0), full(1), full(2), "pump"]
+        # a cursor-shape client moves the pointer itself: it gets no PointerPos, the other one does
+        lines += ["ptr 0 3 3 0", full(0), full(1), "pump", "ptr 1 8 2 0", full(0), full(1), "pump"]
+        # only a PointerPos rectangle is due for client 0, and its write fails
+        lines += ["ptr 2 5 5 0", full(0), "failnext 0 0", "pump", "pump"]
+        out.append("\n".join(lines) + "\n")
     # SetEncodings lists in every order: all permutations of every subset of the cursor
     # pseudo-encodings {PointerPos, XCursor, RichCursor} (Raw and CopyRect mixed in), for the first
     # SetEncodings of a client and for a later one; another client moves the pointer
